@@ -189,7 +189,7 @@ def family_nested_loops():
     for outer in ("W", "F"):
         for inner in ("W", "F"):
             for jump in ("B", "C"):
-                for place in ("in_inner", "after_inner", "before_inner", "inner_else_arm"):
+                for place in ("in_inner", "after_inner", "before_inner", "inner_else_arm", "inner_last"):
                     idx += 1
                     j = (jump,)
                     if place == "in_inner":
@@ -198,12 +198,38 @@ def family_nested_loops():
                         body = ((inner, (("A",),)), ("I", (j,)), ("A",))
                     elif place == "before_inner":
                         body = (("I", (j,)), (inner, (("A",),)), ("A",))
+                    elif place == "inner_last":
+                        body = (("A",), (inner, (("A",), ("I", (j,)))))          # the inner loop ends the outer body
                     else:
                         body = ((inner, (("IE", (("A",),), (j,)),)), ("A",))
                     sk = ((outer, body), ("O",))
                     g = Gen()
                     lines = ["x = a - b"] + render(sk, g, False, 0) + ["out(x)", "return x * 2 + 1"]
                     out.append(dict(prog(f"nest{idx:03d}", "F-ctl", lines, bounds=dict(LOOP_BOUNDS)), skel=repr(sk),
+                                    stale_continue=continue_in_while(sk)))
+    return out
+
+
+def family_two_jumps():
+    """two break/continue statements in ONE loop, in every order and arrangement (sequential ifs, the two arms of one if, nested)"""
+    out = []
+    idx = 0
+    for loop in ("W", "F"):
+        for j1 in ("B", "C"):
+            for j2 in ("B", "C"):
+                for shape in ("sequential", "arms", "nested"):
+                    idx += 1
+                    a, b = (j1,), (j2,)
+                    if shape == "sequential":
+                        body = (("I", (a,)), ("I", (b,)), ("A",))
+                    elif shape == "arms":
+                        body = (("IE", (a,), (b,)), ("A",))
+                    else:
+                        body = (("I", (("I", (a,)), b)), ("A",))
+                    sk = ((loop, body), ("O",))
+                    g = Gen()
+                    lines = ["x = a - b"] + render(sk, g, False, 0) + ["out(x)", "return x * 2 + 1"]
+                    out.append(dict(prog(f"jump{idx:03d}", "F-ctl", lines, bounds=dict(LOOP_BOUNDS)), skel=repr(sk),
                                     stale_continue=continue_in_while(sk)))
     return out
 
@@ -329,13 +355,13 @@ def witnesses():
 
 def quick_family(seed=0):
     progs = family_expr() + family_fun() + family_cls() + family_data() + family_elif()
-    ctl = family_ctl(max_n=3, depth=2, seed=seed) + family_nested_loops()
+    ctl = family_ctl(max_n=3, depth=2, seed=seed) + family_nested_loops() + family_two_jumps()
     return progs, ctl
 
 
 def thorough_family(seed=0):
     progs = family_expr() + family_fun() + family_cls() + family_data() + family_elif()
-    ctl = family_ctl(max_n=4, depth=2, seed=seed) + family_nested_loops()
+    ctl = family_ctl(max_n=4, depth=2, seed=seed) + family_nested_loops() + family_two_jumps()
     return progs, ctl
 
 
